@@ -8,6 +8,7 @@ def declare(reg, eng):
               real="experimaestro.run:TaskRunner")
     reg.klass("SystemExit", ["BaseException"], exc=True)
     reg.const("sys.platform", "str", "linux")
+    reg.const("os.sep", "str", "/")
     reg.const("signal.SIGTERM", "int", 15)
     reg.const("signal.SIGINT", "int", 2)
 
@@ -58,6 +59,8 @@ def declare(reg, eng):
                  ensures=[("C10", "self.cleaned == True"),
                           ("C10", "implies(not old(self.cleaned), not isfile(self.pidfile))"),
                           ("C10", "isfile(self.donepath) == old(isfile(self.donepath)) and isfile(self.failedpath) == old(isfile(self.failedpath))")],
+                 # the only file cleanup removes is the pid file (a lock file must outlive the process: processes queued on it hold its inode)
+                 effect_guards={"unlink": [(("C05", "C10"), "_arg0 == self.pidfile")]},
                  modifies=["self.cleaned", "fs(self.pidfile)", "*.acquired"], effect="cleanup")
     reg.contract("TaskRunner.handle_error", params=["self", "code", "frame_type"], types={"self": "TaskRunner"},
                  requires=DISTINCT, never_returns=True,
